@@ -39,6 +39,8 @@ func (k *SignatureData) Unmarshal(b []byte) (rb []byte, err error) {
 	switch k.SignatureType {
 	case chksumtype.KERB_CHECKSUM_HMAC_MD5_UNSIGNED:
 		c = 16
+	case uint32(chksumtype.HMAC_SHA1_DES3_KD):
+		c = 20
 	case uint32(chksumtype.HMAC_SHA1_96_AES128):
 		c = 12
 	case uint32(chksumtype.HMAC_SHA1_96_AES256):
